@@ -77,6 +77,20 @@ TV_NOTE = ("Trusted: TLC and the CommunityModules overrides; the harness encoder
 NOT_APPLICABLE = {}
 
 PROPS = {
+    "C04": dict(level="model_checking", nontrivial=nt_c04,
+                text="Every GroupBy / Aggregate / QFrames call of the generated scenarios (key cardinality 1..3000 crossing each doubling of the hash table, all key "
+                     "types and multi-column keys, both Null settings, -0.0/+0.0, NaN payloads, null vs empty string, built-in and user aggregations, As renaming, "
+                     "error cases) is executed on the real library; TLC checks GroupPost (the observed groups partition the rows by key equality, rows in frame order) "
+                     "and compares Aggregate / QFrames with AggregateSem / QFramesSem of spec/Rel.tla evaluated on the specification's own grouper.",
+                note=TV_NOTE + " Built-in float aggregations over groups containing NaN, both zeros or both infinities are Unspecified (no reference fixes them).",
+                technique="TLA+ specification (Rel.tla GroupPost/AggregateSem) + TLC trace validation of harness executions",
+                rule="random frames with controlled key cardinality; non-trivial = GroupBy with >=2 groups or Aggregate with >=2 result rows; distinct by (arguments, result digest)"),
+    "C05": dict(level="model_checking", nontrivial=nt_c05,
+                text="Every Distinct call of the generated scenarios (key cardinality 1..3000, all key types, key column subsets including none, both Null settings, "
+                     "-0.0/+0.0 and NaN payloads) is executed on the real library and TLC checks DistinctPost (spec/Rel.tla): the result rows are unmodified, "
+                     "pairwise distinct input rows, pairwise different on the key, and their number equals the number of key classes.",
+                note=TV_NOTE, technique="TLA+ specification (Rel.tla DistinctPost) + TLC trace validation of harness executions",
+                rule="random frames with controlled key cardinality; non-trivial = the result has >=2 rows; distinct by (arguments, result digest)"),
     "C03": dict(level="model_checking", nontrivial=nt_c03, cover=True, cover_files=["internal/sort/sorter.go"],
                 text="Every Sort call of the generated scenarios (row counts across the sorter's regimes 0..14, 39..42, 97, 300, up to 5000; tie density from "
                      "all-equal to all-distinct; 1..3 keys with Reverse/NullLast over all column types; quicksort-killer inputs built at run time by McIlroy's "
